@@ -154,18 +154,24 @@ theorem wave_unit_rejected (v : K) (u : QUnit K)
 /-- [core] a flux density on a `SourceSpectrum` is converted at the reference wavelength × (1+z), every
 element of a table at its own wavelength -/
 theorem flux_at_redshifted_reference (z : K) (u : FluxUnit K) (hu : u ≠ .photlam)
-    (hfd : isFluxDensity u = true) (w f : List K) :
+    (hfd : isFluxDensity u = true) (w f : List K) (hz : zeroRef z (some w) = false) :
     processFlux P T .source z (some w) { vals := f, unit := some (.flux u) } = convEach P T z u w f := by
   unfold processFlux
-  simp only [hfd, if_true]
+  simp only [hfd, if_true, hz, Bool.false_and, Bool.false_eq_true, if_false]
   exact convertAtRef_eq P T z u hu hfd w f
+
+/-- a reference wavelength of exactly zero: the per-frequency units would divide by it (NumPy: inf / nan) -/
+theorem zero_reference_nan (z : K) (u : FluxUnit K) (hfd : isFluxDensity u = true) (hn : needsInvLam u = true)
+    (w f : List K) (hz : zeroRef z (some w) = true) :
+    processFlux P T .source z (some w) { vals := f, unit := some (.flux u) } = .error .nan := by
+  simp [processFlux, hfd, hz, hn]
 
 /-- … for a scalar amplitude: `toPhotlam` at `w (1+z)` -/
 theorem amplitude_at_redshifted_reference (z : K) (u : FluxUnit K) (hu : u ≠ .photlam)
-    (hfd : isFluxDensity u = true) (w f : K) :
+    (hfd : isFluxDensity u = true) (w f : K) (hz : w * (1 + z) ≠ 0) :
     processFlux P T .source z (some [w]) { vals := [f], unit := some (.flux u) } =
       (toPhotlam P T (plainSamp (w * (1 + z))) u f).map fun p => [p] := by
-  rw [flux_at_redshifted_reference z u hu hfd]
+  rw [flux_at_redshifted_reference z u hu hfd [w] [f] (by simp [zeroRef]; exact mul_ne_zero_iff.mp hz)]
   simp only [convEach]
   cases toPhotlam P T (plainSamp (w * (1 + z))) u f <;> rfl
 
@@ -174,8 +180,8 @@ theorem photlam_untouched (z : K) (w : Option (List K)) (f : List K) :
     processFlux P T .source z w { vals := f, unit := some (.flux .photlam) } = .ok f := by
   unfold processFlux
   cases w with
-  | none => simp [isFluxDensity, convertAtRef]
-  | some w => simp [isFluxDensity, convertAtRef, convertFlux]
+  | none => simp [isFluxDensity, convertAtRef, needsInvLam]
+  | some w => simp [isFluxDensity, convertAtRef, convertFlux, needsInvLam]
 
 theorem plainSamp_pos (x : K) (hx : 0 < x) : (plainSamp x : Samp K).Pos :=
   ⟨hx, (fun _ h => by cases h), (fun _ h => by cases h)⟩
@@ -186,7 +192,7 @@ theorem amplitude_roundtrip (hP : P.Pos) (hT : T.Lawful) (z : K) (u : FluxUnit K
     (hu : u ≠ .photlam) (hfd : isFluxDensity u = true) (w f p : K) (hw : 0 < w * (1 + z))
     (h : processFlux P T .source z (some [w]) { vals := [f], unit := some (.flux u) } = .ok [p]) :
     ofPhotlam P T (plainSamp (w * (1 + z))) u p = .ok f := by
-  rw [amplitude_at_redshifted_reference z u hu hfd] at h
+  rw [amplitude_at_redshifted_reference z u hu hfd w f hw.ne'] at h
   obtain ⟨p', hp', hpp⟩ := map_ok_inv _ _ _ h
   have : p = p' := by injection hpp with h1
   subst this
@@ -292,7 +298,7 @@ internal unit; any other flux density is refused (there is no wavelength to conv
 theorem no_reference_only_internal (z : K) (f : List K) (u : FluxUnit K) (hfd : isFluxDensity u = true) :
     processFlux P T .source z none { vals := f, unit := some (.flux u) } =
       if u = .photlam then .ok f else .error .synphotError := by
-  simp [processFlux, hfd, convertAtRef]
+  simp [processFlux, hfd, convertAtRef, zeroRef]
 
 /-- [core] `Const1D` on a source: the amplitude given as a PHOTLAM Quantity builds the object the plain
 number builds (repaired by 0d4a51b; before, the Quantity reached astropy unconverted) -/
@@ -309,7 +315,7 @@ theorem const1_quantity_eq_number (z a : K) :
   have hl : Generated.modelParamTable.lookup "Const1D" = some [("amplitude", "flux")] := by decide +kernel
   have hf : Generated.modelFconvWav.lookup "Const1D" = none := by decide +kernel
   constructor <;>
-    simp [construct, processArgs, hl, hf, processOne, processFlux, isFluxDensity, convertAtRef, build,
+    simp [construct, processArgs, hl, hf, processOne, processFlux, isFluxDensity, convertAtRef, build, zeroRef,
       bind, Except.bind, List.lookup, pure, Except.pure, Arg.num, Except.map]
 
 /-- … on a unitless class: a dimensionless Quantity (`percent` ↦ 1/100) is the number it stands for -/
@@ -331,7 +337,7 @@ theorem const1_other_unit_rejected (z a : K) (u : FluxUnit K) (hu : u ≠ .photl
   have hl : Generated.modelParamTable.lookup "Const1D" = some [("amplitude", "flux")] := by decide +kernel
   have hf : Generated.modelFconvWav.lookup "Const1D" = none := by decide +kernel
   by_cases hfd : isFluxDensity u = true
-  · simp [construct, processArgs, hl, hf, processOne, processFlux, hfd, convertAtRef, hu,
+  · simp [construct, processArgs, hl, hf, processOne, processFlux, hfd, convertAtRef, hu, zeroRef,
       bind, Except.bind, List.lookup, Except.map]
   · have hfd' : isFluxDensity u = false := by simpa using hfd
     simp [construct, processArgs, hl, hf, processOne, processFlux, hfd',
@@ -341,7 +347,7 @@ theorem const1_other_unit_rejected (z a : K) (u : FluxUnit K) (hu : u ≠ .photl
 its own wavelengths × (1+z), exactly as for `Empirical1D` (repaired by e50ecea; before, the class had no
 reference wavelength and the table became NaN) -/
 theorem extinction_table_converted (z : K) (w f : List K) (u : FluxUnit K) (hu : u ≠ .photlam)
-    (hfd : isFluxDensity u = true) :
+    (hfd : isFluxDensity u = true) (hz : zeroRef z (some w) = false) :
     processArgs P T Generated.modelParamTable Generated.modelFconvWav
       { cls := .source, z := z, isModelClass := true, model := "ExtinctionModel1D", nModels := 1,
         args := [("points", Arg.num w), ("lookup_table", { vals := f, unit := some (.flux u) })] }
@@ -349,7 +355,7 @@ theorem extinction_table_converted (z : K) (w f : List K) (u : FluxUnit K) (hu :
   have hl : Generated.modelParamTable.lookup "ExtinctionModel1D" =
       some [("points", "wave"), ("lookup_table", "flux")] := by decide +kernel
   have hf : Generated.modelFconvWav.lookup "ExtinctionModel1D" = some "points" := by decide +kernel
-  have hc := flux_at_redshifted_reference (P := P) (T := T) z u hu hfd w f
+  have hc := flux_at_redshifted_reference (P := P) (T := T) z u hu hfd w f hz
   have hp : processOne P T SpecClass.source z (some w) [("points", "wave"), ("lookup_table", "flux")]
       ("lookup_table", { vals := f, unit := some (QUnit.flux u) }) =
       (convEach P T z u w f).map fun v => ("lookup_table", Arg.num v) := by
@@ -609,7 +615,7 @@ example (P : PhysConst ℚ) (T : Transc ℚ) :
       some [("amplitude", "flux"), ("mean", "wave"), ("stddev", "wave")] := by decide +kernel
   have hf : Generated.modelFconvWav.lookup "Gaussian1D" = some "mean" := by decide +kernel
   have hne : (FluxUnit.flam : FluxUnit ℚ) ≠ .photlam := by intro h; cases h
-  simp [processArgs, hl, hf, processOne, List.lookup, processWave, Arg.num, processFlux, isFluxDensity,
+  simp [needsInvLam, processArgs, hl, hf, processOne, List.lookup, processWave, Arg.num, processFlux, isFluxDensity,
     convertAtRef, convertFlux, hne, countFactorsFor, FluxUnit.needsArea, mkSamples, convertAll, convertOne,
     toPhotlam, ofPhotlam, waveToAA, WaveUnit.toAngstrom, popKey, Except.map, bind, Except.bind, pure, Except.pure]
 
